@@ -389,6 +389,27 @@ def main():
         ex[nm] = persists
         L.append(f"/-- `{relx.split('/')[-1]}`: the frame read in progress is stored in the stream holder, not in the future of `run` -/")
         L.append(f"abbrev {nm} : Bool := {'true' if persists else 'false'}")
+        # … and once a frame has been read, does `run` reach its decision without awaiting anything
+        # else? (an `.await` between a consumed frame and the returned decision sits in the future
+        # the select loop drops: the frame's effect would be forgotten)
+        atomic = None
+        for mm in re.finditer(r"pub async fn run\(&mut self\) -> DriverError \{", sx):
+            d, e = 1, mm.end()
+            while e < len(sx) and d > 0:
+                d += {"{": 1, "}": -1}.get(sx[e], 0)
+                e += 1
+            body = re.sub(r"//[^\n]*", "", sx[mm.end():e - 1])
+            if "self.read_frame()" not in body:
+                continue
+            n_all = len(re.findall(r"\.await\b", body))
+            n_read = len(re.findall(r"self\s*\.read_frame\(\)\s*\.await\b", body))
+            atomic = n_read >= 1 and n_all == n_read
+        if atomic is None:
+            raise Missing(f"{relx}: `run` that calls self.read_frame()")
+        nm2 = nm.replace("CONTROL_READ_PERSISTS", "CONTROL_DECISION_ATOMIC")
+        ex[nm2] = atomic
+        L.append(f"/-- `{relx.split('/')[-1]}`: `run` awaits nothing but `self.read_frame()` (no await between a consumed frame and the decision) -/")
+        L.append(f"abbrev {nm2} : Bool := {'true' if atomic else 'false'}")
 
     # ---- tls.rs / config.rs: protocol versions, ALPN lists, pass-through of keep-alive and migration
     rel3 = "wtransport/src/tls.rs"
